@@ -34,6 +34,10 @@ type rrCase struct {
 	K          int `json:"k"`
 	Goroutines int `json:"goroutines"`
 	Warmup     int `json:"warmup"` // picks before the measured window (the window may start anywhere)
+	// WarmHosts: the warm-up picks are made against a list of this size (0: the same list) - the usable list changed size
+	// (host added / removed / health flip) right before the measured window; Rounds repeats warm-up + window on one balancer.
+	WarmHosts int `json:"warm_hosts,omitempty"`
+	Rounds    int `json:"rounds,omitempty"`
 }
 
 func checkRR(c rrCase) *verdict {
@@ -41,44 +45,64 @@ func checkRR(c rrCase) *verdict {
 	for i := range hs {
 		hs[i] = host.New(fmt.Sprintf("10.0.0.%d:80", i+1))
 	}
-	lb := verifexport.NewBalancer(service.LoadBalancePolicy_ROUND_ROBIN)
-	for i := 0; i < c.Warmup; i++ {
-		lb.PickHost(hs)
-	}
-	total := c.Hosts * c.K
-	counts := make([]map[*host.Host]int, c.Goroutines)
-	var wg sync.WaitGroup
-	per := total / c.Goroutines
-	rem := total % c.Goroutines
-	for g := 0; g < c.Goroutines; g++ {
-		n := per
-		if g < rem {
-			n++
-		}
-		counts[g] = map[*host.Host]int{}
-		wg.Add(1)
-		go func(g, n int) {
-			defer wg.Done()
-			for i := 0; i < n; i++ {
-				h := lb.PickHost(hs)
-				counts[g][h]++
+	warm := hs
+	if c.WarmHosts > 0 {
+		warm = make([]*host.Host, c.WarmHosts)
+		for i := range warm {
+			if i < len(hs) {
+				warm[i] = hs[i]
+			} else {
+				warm[i] = host.New(fmt.Sprintf("10.0.1.%d:80", i+1))
 			}
-		}(g, n)
-	}
-	wg.Wait()
-	sum := map[*host.Host]int{}
-	for _, m := range counts {
-		for h, n := range m {
-			sum[h] += n
 		}
 	}
-	for i, h := range hs {
-		if sum[h] != c.K {
-			return &verdict{"round-robin-unfair", fmt.Sprintf("%d hosts, %d consecutive selections by %d goroutines: host %d was picked %d times, want exactly %d", c.Hosts, total, c.Goroutines, i, sum[h], c.K)}
-		}
+	lb := verifexport.NewBalancer(service.LoadBalancePolicy_ROUND_ROBIN)
+	rounds := c.Rounds
+	if rounds < 1 {
+		rounds = 1
 	}
-	if len(sum) != c.Hosts {
-		return &verdict{"pick-not-a-member", "round robin picked a host outside the list"}
+	for r := 0; r < rounds; r++ {
+		for i := 0; i < c.Warmup; i++ {
+			lb.PickHost(warm)
+		}
+		total := c.Hosts * c.K
+		counts := make([]map[*host.Host]int, c.Goroutines)
+		var wg sync.WaitGroup
+		per := total / c.Goroutines
+		rem := total % c.Goroutines
+		start := make(chan struct{})
+		for g := 0; g < c.Goroutines; g++ {
+			n := per
+			if g < rem {
+				n++
+			}
+			counts[g] = map[*host.Host]int{}
+			wg.Add(1)
+			go func(g, n int) {
+				defer wg.Done()
+				<-start // the first picks against the list arrive together
+				for i := 0; i < n; i++ {
+					h := lb.PickHost(hs)
+					counts[g][h]++
+				}
+			}(g, n)
+		}
+		close(start)
+		wg.Wait()
+		sum := map[*host.Host]int{}
+		for _, m := range counts {
+			for h, n := range m {
+				sum[h] += n
+			}
+		}
+		for i, h := range hs {
+			if sum[h] != c.K {
+				return &verdict{"round-robin-unfair", fmt.Sprintf("round %d: %d hosts (the picks before were made against %d), %d consecutive selections by %d goroutines: host %d was picked %d times, want exactly %d", r, c.Hosts, len(warm), total, c.Goroutines, i, sum[h], c.K)}
+			}
+		}
+		if len(sum) != c.Hosts {
+			return &verdict{"pick-not-a-member", "round robin picked a host outside the list"}
+		}
 	}
 	return nil
 }
@@ -86,10 +110,19 @@ func checkRR(c rrCase) *verdict {
 func TestRoundRobin(t *testing.T) {
 	rapid.Check(t, func(t *rapid.T) {
 		c := rrCase{Hosts: rapid.IntRange(1, 16).Draw(t, "hosts"), K: rapid.IntRange(1, 50).Draw(t, "k"), Goroutines: rapid.IntRange(1, 16).Draw(t, "g"), Warmup: rapid.IntRange(0, 40).Draw(t, "warmup")}
+		if rapid.Bool().Draw(t, "resized") {
+			c.WarmHosts, c.Rounds = rapid.IntRange(1, 17).Draw(t, "warmhosts"), rapid.IntRange(1, 30).Draw(t, "rounds")
+			if c.Warmup == 0 {
+				c.Warmup = 1
+			}
+		}
 		if v := checkRR(c); v != nil {
 			vh.Fail(t, vh.Failure{Property: prop, Part: "roundrobin", Signature: v.sig, Message: v.msg, Case: c})
 		}
 		vh.Rec().Case("roundrobin", c.Goroutines > 1 && c.Hosts > 1, vh.JSON(c))
+		if c.WarmHosts > 0 && c.WarmHosts != c.Hosts && c.Goroutines > 1 {
+			vh.Rec().Class("roundrobin", "list_resized_before_concurrent_window")
+		}
 		vh.Rec().Sample("roundrobin", c.Goroutines > 1, func() interface{} { return c })
 	})
 }
